@@ -15,6 +15,7 @@ package keeper
 //@ ensures [whole_group_gives_quarter] total > 0 && part == total ==> r == 25000000
 //@ ensures [nothing_gives_zero] part == 0 ==> r == 0
 //@ ensures [never_negative] r >= 0
+//@ ensures [a_share_is_cut_off_after_six_decimals_never_rounded_up] total > 0 ==> r == dectrunc(decmul(decquo(decmul(part * 1000000000000000000, 1000000000000000000000000), total * 4 * 1000000000000000000), 100000000000000000000))
 //@ ensures [at_most_quarter_for_a_part] total > 0 && part <= total ==> r <= 25000000
 
 // ---- tally result (C12) ----
